@@ -330,6 +330,23 @@ def like(r, as_type=None, ctx=None):
     return r
 
 
+# Storage dtype tags.  The engine computes with mathematical reals (A1); an array may carry the dtype it was allocated / cast
+# with (`c16_dtype`, a torch.dtype) so that a contract can state "the result has the dtype of the input" (precision is a
+# property of the storage, not of the values).  Untagged arrays count as double precision.
+_REAL_OF = {torch.complex128: torch.float64, torch.complex64: torch.float32}
+_CPLX_OF = {torch.float64: torch.complex128, torch.float32: torch.complex64, torch.float16: torch.complex64}
+
+
+def tag_dtype(a, dt):
+    if isinstance(a, SymArr) and dt is not None:
+        a.c16_dtype = dt
+    return a
+
+
+def dtype_tag(a):
+    return getattr(a, "c16_dtype", None)
+
+
 def fresh_cx(ctx, base, shape, as_type=None):
     name = ctx.fresh_name(base)
     nd = len(shape)
@@ -662,6 +679,7 @@ def c_reshape(ctx, a, shape):
             raise OutOfSubset(f"reshape {old} -> {tuple(shape)} not modelled")
     if hasattr(a, "c16_cx"):
         r.c16_cx = a.c16_cx
+    tag_dtype(r, dtype_tag(a))
     return like(r, getattr(a, "as_type", None), ctx)
 
 
@@ -858,6 +876,8 @@ def install(reg):
     def dtype_of(interp, a):
         tt = getattr(a, "as_type", None) or backend_type(interp.ctx)
         cx = is_cx(a)
+        if tt is torch.Tensor and dtype_tag(a) is not None:
+            return dtype_tag(a)
         if tt is torch.Tensor:
             return torch.complex128 if cx else (torch.int64 if a.kind == "int" else torch.bool if a.kind == "bool" else torch.float64)
         return np.dtype(np.complex128 if cx else (np.int64 if a.kind == "int" else np.bool_ if a.kind == "bool" else np.float64))
@@ -885,6 +905,7 @@ def install(reg):
         else:
             r = SymArr(a.shape, lambda *idx: S(fn0(*idx).re), "real")
             r.c16_cx = False
+        tag_dtype(r, dt if isinstance(dt, torch.dtype) else dtype_tag(a) if dt is None else None)
         return like(r, getattr(a, "as_type", None), interp.ctx)
 
     # ---------------------------------------------------------------- attribute protocol on arrays
@@ -904,6 +925,7 @@ def install(reg):
             fn0 = a.fn
             r = SymArr(a.shape, lambda *idx: S(fn0(*idx).re), "real")
             r.c16_cx = False
+            tag_dtype(r, _REAL_OF.get(dtype_tag(a)))
             return like(r, getattr(a, "as_type", None), ctx)
         if name == "imag":
             fn0 = a.fn
@@ -914,6 +936,7 @@ def install(reg):
             else:
                 r = SymArr(a.shape, lambda *idx: S(fn0(*idx).im), "real")
             r.c16_cx = False
+            tag_dtype(r, _REAL_OF.get(dtype_tag(a)))
             return like(r, getattr(a, "as_type", None), ctx)
         if name == "is_complex":
             return sym_ok(lambda _a=a: is_cx(_a))
@@ -1030,6 +1053,8 @@ def install(reg):
                   z3.ForAll([q], z3.Implies(z3.And(q >= 0, q < n_idx), z3.And(lift(ifn(q)) >= 0, lift(ifn(q)) < n_out))), kind="safety")
         if is_cx(source) or is_cx(out):
             raise OutOfSubset("complex index_add_")
+        if dtype_tag(out) is not None and dtype_tag(source) is not None and dtype_tag(out) != dtype_tag(source):
+            raise RaiseSig(RuntimeError("index_add_(): self and source expected to have the same dtype"))
 
         def fn(j):
             j = lift(j)
@@ -1174,6 +1199,8 @@ def install(reg):
             r = SymArr(shape, lambda *i: 0.0, "real")
             r.c16_cx = False
         r.as_type = torch.Tensor
+        r.requested_dtype = dtype
+        tag_dtype(r, dtype if isinstance(dtype, torch.dtype) else torch.get_default_dtype() if dtype is None else None)
         return r
 
     M[torch.zeros] = m_zeros
@@ -1200,6 +1227,18 @@ def install(reg):
         return interp.native(torch.prod, x, *a, **kw)
 
     M[torch.prod] = m_prod
+
+    def m_np_prod(interp, x, *a, **kw):
+        if isinstance(x, (tuple, list)) and contains_sym(x) and not a and not kw and not any(isinstance(e, (SymArr, tuple, list)) for e in x):
+            r = 1
+            for e in x:
+                r = r * e
+            return r
+        if isinstance(x, SymArr):
+            return m_prod(interp, x, *a, **kw)
+        return NotImplemented
+
+    M[np.prod] = m_np_prod
 
     def m_stack(interp, xs, dim=0, axis=None, **kw):
         if axis is not None:
